@@ -1,9 +1,65 @@
-import Sck.Proofs.GsHR
+import Sck.Proofs.GsExample
 
-/-! # C01 — Gale–Shapley returns a feasible matching with no blocking pair
-Property theorems only (helper lemmas live in `Sck/Proofs`). -/
+/-! # C01 — deferred acceptance returns a feasible matching with no blocking pair
+Property theorems only (helper lemmas live in `Sck/Proofs/Gs*.lean`, `Sck/Proofs/DA*.lean`).
 
-/-- resident-oriented deferred acceptance on rank matrices: no blocking pair, for every instance size -/
-theorem C01_gsRes_no_blocking (I : HR) (hwf : I.WF) (mu : List (Nat × Nat)) (h : gsRes I = some mu) :
-    ∀ r hh, ¬ BlockingHR I mu r hh :=
-  gsRes_no_blocking I hwf mu h
+Vocabulary: `I : HR` is the instance on rank matrices (`none` = NaN = unacceptable);
+`I.WF2` = dimensions agree and every row of `I.R` and `I.H` is strict (decidable, `HR.wfB`);
+a matching is a list of (resident, hospital) pairs; `heldBy mu h` = residents paired with `h`;
+`BlockingHR I mu r h` is the property's blocking pair, verbatim. Capacities need not be positive. -/
+
+/-- **C01, public rule.** For either orientation `ro` and either index convention `fixer`,
+`galeShapley` returns (the model's fuel `n * m + 1` suffices), and its result is the label shift of a
+list `mu` of (resident, hospital) pairs such that: no pair is repeated, all labels are in range,
+every resident appears at most once, no hospital holds more residents than its capacity, every
+matched pair is mutually acceptable, and there is no blocking pair. -/
+theorem C01_galeShapley (ro : Bool) (fixer : Nat) (I : HR) (hwf : I.WF2) :
+    ∃ mu : List (Nat × Nat),
+      galeShapley ro fixer I = some (mu.map (fun e => (e.1 + fixer, e.2 + fixer))) ∧
+      mu.Nodup ∧
+      (∀ r h, (r, h) ∈ mu → r < I.n ∧ h < I.m) ∧
+      (∀ r h h', (r, h) ∈ mu → (r, h') ∈ mu → h = h') ∧
+      (∀ h, (heldBy mu h).length ≤ I.cap.getD h 0) ∧
+      (∀ r h, (r, h) ∈ mu → rankAt I.R r h ≠ none ∧ rankAt I.H h r ≠ none) ∧
+      (∀ r h, ¬ BlockingHR I mu r h) := by
+  obtain ⟨mu, hout, hst⟩ := galeShapley_spec ro fixer I hwf
+  exact ⟨mu, hout, hst.1.nodup, fun r h hm => hst.1.bounds hwf hm, hst.1.resOnce, hst.1.cap, hst.1.acc, hst.2⟩
+
+/-- **C01, resident-oriented branch**: it terminates within the fuel, and whatever it returns is
+feasible (`FeasibleHR`: the four matching clauses above) and has no blocking pair. -/
+theorem C01_gsRes (I : HR) (hwf : I.WF2) :
+    (∃ mu, gsRes I = some mu) ∧
+    ∀ mu, gsRes I = some mu → FeasibleHR I mu ∧ ∀ r h, ¬ BlockingHR I mu r h :=
+  ⟨gsRes_terminates I hwf, fun mu h => gsRes_stable I hwf mu h⟩
+
+/-- **C01, hospital-oriented branch**, same statement with the same blocking-pair predicate. -/
+theorem C01_gsHosp (I : HR) (hwf : I.WF2) :
+    (∃ mu, gsHosp I = some mu) ∧
+    ∀ mu, gsHosp I = some mu → FeasibleHR I mu ∧ ∀ r h, ¬ BlockingHR I mu r h :=
+  ⟨gsHosp_terminates I hwf, fun mu h => gsHosp_stable I hwf mu h⟩
+
+/-- what `FeasibleHR` says, spelled out -/
+theorem C01_feasibleHR_iff (I : HR) (mu : List (Nat × Nat)) :
+    FeasibleHR I mu ↔
+      mu.Nodup ∧ (∀ r h h', (r, h) ∈ mu → (r, h') ∈ mu → h = h') ∧
+      (∀ h, (heldBy mu h).length ≤ I.cap.getD h 0) ∧
+      (∀ r h, (r, h) ∈ mu → rankAt I.R r h ≠ none ∧ rankAt I.H h r ≠ none) :=
+  ⟨fun h => ⟨h.nodup, h.resOnce, h.cap, h.acc⟩, fun ⟨a, b, c, d⟩ => ⟨a, b, c, d⟩⟩
+
+/-- the Bool checker decides the well-formedness hypothesis -/
+theorem C01_wfB_iff (I : HR) : I.wfB = true ↔ I.WF2 := I.wfB_iff
+
+/-! ## non-vacuity: a concrete instance (3 residents, 2 hospitals, NaN on both sides, capacities 1, 2) -/
+
+example : exI.WF2 := exI.wfB_sound (by decide)
+example : exI.WF2 := by decide
+example : galeShapley true 1 exI = some [(1, 2), (3, 2), (2, 1)] := by
+  rw [galeShapley_eq, if_pos rfl, exI_gsRes]; rfl
+example : galeShapley false 0 exI = some [(2, 1), (0, 1), (1, 0)] := by
+  rw [galeShapley_eq, if_neg (by decide), exI_gsHosp]; rfl
+/-- the checker rejects a tie -/
+example : ¬ ({ exI with R := [[some 1, some 1], [some 1, none], [some 2, some 1]] } : HR).WF2 := by decide
+
+#print axioms C01_galeShapley
+#print axioms C01_gsRes
+#print axioms C01_gsHosp
